@@ -10,7 +10,6 @@ NOT_APPLICABLE = {
     "C09": "history property of a whole node (GenericCloud) with timers and address-keyed maps; no loop-free kernel implies it",
     "C10": "conservation across 2-5 whole nodes per step; no kernel reachable by bounded symbolic execution implies it",
     "C17": "beacon extraction and decoding did not complete under bounded symbolic execution: BeaconSerializer::decode over a 10-character symbolic text (str::find with 5-character markers, everything else stubbed) and peerlist_decode over a 10-byte symbolic body (codec stubbed, digest modelled) both ran past 15 min / 16 GB; the text codec itself (to_base62/from_base62) does not complete for 2 bytes",
-    "C14": "mesh convergence and self-dial avoidance over graphs of whole nodes; liveness over many node steps",
 }
 
 
